@@ -2745,7 +2745,14 @@ class VM:
                 return self.stack.pop()
             return UNDEFINED
         elif callable(callback):
-            return self._call_host(callback, this_val, args)
+            # A native used as a callback can call back in turn (forEach handed
+            # to forEach): every level is a frame on the host stack and counts
+            # against its budget
+            self._enter_host_level()
+            try:
+                return self._call_host(callback, this_val, args)
+            finally:
+                self.host_depth[0] -= 1
         else:
             raise JSTypeError(f"{to_string(callback)} is not a function")
 
